@@ -5,6 +5,7 @@ import (
 	"math"
 	"math/big"
 	"sort"
+	"time"
 
 	"gosym/smt"
 )
@@ -513,6 +514,18 @@ func (p *PathState) Assert(in *Interp, id string, v Value) {
 		}
 		q0 := in.S.Stats.Time
 		r := in.S.Check(p.TimeoutOb, neg)
+		if r == smt.Unknown {
+			// second opinion: the other installed solvers on the self-contained script of this obligation
+			script := in.S.Script(neg)
+			for _, ext := range [][]string{{"cvc5", "--tlimit=120000", "--lang=smt2"}, {"/usr/bin/z3", "-in", "-T:120"}} {
+				re, _ := smt.RunExternal(ext[0], ext[1:], script, 130*time.Second)
+				if re == smt.Unsat {
+					r = smt.Unsat
+					p.Notes = append(p.Notes, "obligation "+id+" undecided by z3 5.1.0, discharged by "+ext[0])
+					break
+				}
+			}
+		}
 		ms := float64((in.S.Stats.Time - q0).Microseconds()) / 1000
 		cs := cond.String()
 		if len(cs) > 160 {
